@@ -23,7 +23,6 @@ NEEDS_ALL_RUNS = {"not-dead", "pod-closure"}
 
 
 def check(ctx, rep, tier):
-    rb = ctx.rb
     rep.describe("unique-name", "no two top-level functions of a rule module share a name "
                  "(a later def silently replaces the earlier registry entry)")
     rep.describe("registered", "every top-level function that takes a reference time first "
@@ -42,6 +41,8 @@ def check(ctx, rep, tier):
                  "of the flattened part-of-day table")
     rep.describe("model-vocabulary", "every blank-separated component of every vocabulary key "
                  "of the shipped pickle is a simulated pattern id or a registered rule name")
+    _registry_keys(ctx, rep)
+    rb = ctx.rb
     _names(ctx, rep)
     _registry(ctx, rep)
     _patterns(ctx, rep)
@@ -54,6 +55,31 @@ def check(ctx, rep, tier):
     rep.count("rules", len(rb.rules), 40)
     rep.count("distinct_patterns", len(rb.id_of_text), 25)
     rep.assume("A1: ast/pickletools/regex parser are faithful")
+
+
+def _registry_keys(ctx, rep):
+    """the key every registration stores under (rule.py: ``rules[f.__name__]``), derived for the
+    decorator form and for the call form ``rule(...)(helper(f))``: `__name__` of a closure is the
+    name of its inner def unless that def is decorated with ``wraps(<the wrapped parameter>)``.
+    Two registrations under one key: the later silently replaces the earlier.  Runs before the rule
+    table is read, so that it also answers on trees whose table cannot be read off decorators."""
+    regs = e1.registration_keys(ctx.model)
+    if regs is None:
+        return
+    by = {}
+    for key, mod, node, form in regs:
+        if key is not None:
+            by.setdefault(key, []).append((mod, node, form))
+    for key, lst in sorted(by.items()):
+        if len(lst) > 1 and any(form == "call" for _m, _n, form in lst):
+            mod, node, _f = lst[1]
+            rep.violated("unique-name", "registry-key::{}".format(key), mod.where(node),
+                         "{} productions register under the key '{}' (at {}); each later one replaces "
+                         "the one before it, which can no longer fire".format(
+                             len(lst), key, ", ".join(m.where(n) for m, n, _f in lst)))
+    if not any(len(l) > 1 for l in by.values()):
+        rep.ok("unique-name", "registry-keys::all", "ctparse/rule.py",
+               "{} registrations, {} keys derived, all distinct".format(len(regs), len(by)))
 
 
 def _names(ctx, rep):
